@@ -551,6 +551,7 @@ impl<'r> Gen<'r> {
                     }
                 }
                 self.in_switch = was;
+                self.clause_scope_variation(Some(ty), &mut out, &mut clauses);
                 out.push(Stmt::Switch(v, clauses));
                 out.push(self.tail(ty, depth));
             }
@@ -572,6 +573,58 @@ impl<'r> Gen<'r> {
         }
         self.locals.truncate(saved);
         out
+    }
+
+    /// Clause scoping of `switch` (finding F100): with probability 1/4 a switch with at least two clauses gets a clause
+    /// that declares a variable WITH initialiser and a LATER clause (reached by fall-through or by the jump from the
+    /// head) that reads or assigns it — either with no outer variable of that name (the reference must be rejected,
+    /// by the real code and the model alike: `undefined reference`) or shadowing an outer variable declared before
+    /// the switch (the later clause must see the OUTER one: value checks of C01/C13).  `ty`: the binding's type, or
+    /// `None` in a callback (the use is then a property write / console call).
+    /// The MAIN random stream is not consumed: decisions and sub-expressions come from a generator forked from a
+    /// hash of the switch generated so far, so every draw of every other program is what it was before.
+    fn clause_scope_variation(&mut self, ty: Option<Ty>, out: &mut Vec<Stmt>, clauses: &mut [(Option<Expr>, Vec<Stmt>)]) {
+        if clauses.len() < 2 {
+            return;
+        }
+        let mut h: u64 = 0xcbf29ce484222325;
+        for b in format!("{:?}", clauses).bytes() {
+            h = (h ^ b as u64).wrapping_mul(0x100000001b3);
+        }
+        let mut r2 = Rng::fork(h, "clause-scope", clauses.len() as u64);
+        if !r2.chance(1, 4) {
+            return;
+        }
+        let i = r2.below(clauses.len() - 1);
+        let j = i + 1 + r2.below(clauses.len() - 1 - i);
+        let name = format!("cv{}", self.next_local);
+        let vt = ty.unwrap_or(Ty::Int);
+        let (outer, inner, other, leak, action, inner_const) = {
+            let mut g2 = Gen::new(&mut r2, 0);
+            g2.locals = self.locals.clone();
+            g2.constant_only = self.constant_only;
+            g2.next_local = self.next_local + 100;
+            let outer = g2.expr(vt, 1);
+            let inner = g2.expr(vt, 1);
+            let other = g2.expr(vt, 1);
+            (outer, inner, other, g2.rng.chance(1, 2), g2.rng.below(3), g2.rng.chance(1, 3))
+        };
+        if !leak {
+            out.push(Stmt::Lexical(false, vec![Decl { name: name.clone(), ty: None, value: Some(outer) }]));
+        }
+        clauses[i].1.insert(0, Stmt::Lexical(inner_const, vec![Decl { name: name.clone(), ty: None, value: Some(inner) }]));
+        let assign = |l: Expr, r: Expr| Stmt::Expr(Expr::Assign(Box::new(l), Box::new(r)));
+        let uses: Vec<Stmt> = match (ty, action) {
+            (Some(_), 0) => vec![Stmt::Return(Some(id(&name)))],
+            (Some(_), 1) => vec![assign(id(&name), other), Stmt::Return(Some(id(&name)))],
+            (Some(_), _) => vec![Stmt::Expr(id(&name))],
+            (None, 0) => vec![assign(mem(id("b"), "i"), id(&name))],
+            (None, 1) => vec![assign(id(&name), other), assign(mem(id("b"), "i"), id(&name))],
+            (None, _) => vec![Stmt::Expr(call(mem(id("console"), "log"), vec![id(&name)]))],
+        };
+        for (k, st) in uses.into_iter().enumerate() {
+            clauses[j].1.insert(k, st);
+        }
     }
 
     fn tail(&mut self, ty: Ty, depth: usize) -> Stmt {
@@ -688,6 +741,7 @@ impl<'r> Gen<'r> {
                         clauses.insert(at, (None, self.effect_stmts(0, 1)));
                     }
                     self.in_switch = was;
+                    self.clause_scope_variation(None, &mut out, &mut clauses);
                     out.push(Stmt::Switch(v, clauses));
                 }
                 _ => {
